@@ -116,8 +116,16 @@ def run(rep, tier, seed, model_ok=True, effort=1):
                 "non-trivial = distinct string; pairs/triples counted separately in the distribution")
     strs = []
     seen = set()
-    for i in range(n):
-        s = gen_pep440(r) if r.random() < 0.6 else gen_legacy(r)
+    # systematic family: every suffix combination on a few releases (the PEP 440 ordering table)
+    fam = []
+    for rel in ("1.0", "1.0.1", "2020.1003"):
+        for pre in ("", "a1", "b2", "rc1"):
+            for post in ("", ".post1", ".post2"):
+                for dev in ("", ".dev0", ".dev3"):
+                    for loc in ("", "+abc"):
+                        fam.append(rel + pre + post + dev + loc)
+    for i in range(n + len(fam)):
+        s = fam[i - n] if i >= n else (gen_pep440(r) if r.random() < 0.6 else gen_legacy(r))
         if s in seen:
             continue
         seen.add(s)
@@ -180,6 +188,23 @@ def run(rep, tier, seed, model_ok=True, effort=1):
         if not (a <= a):
             rep.violation("reflexivity fails", input=dict(a=str(a)), **{"class": "not-reflexive"})
         rep.count("triples")
+    # every adjacent pair of the whole corpus under the reference order must be ordered the same way by the implementation
+    if pk is not None:
+        valid = []
+        for s_ in strs:
+            try:
+                valid.append((pk.Version(s_), s_))
+            except pk.InvalidVersion:
+                pass
+        valid.sort(key=lambda t: t[0])
+        for (pa, a), (pb, b) in zip(valid, valid[1:]):
+            va, vb = objs[a], objs[b]
+            rep.count("adjacent-pairs")
+            if not isinstance(va, sv.Version) or not isinstance(vb, sv.Version):
+                continue
+            if (pa < pb and not (va < vb)) or (pa == pb and not (va == vb)):
+                rep.violation("order differs from PEP 440 (packaging.version) on adjacent versions", input=dict(a=a, b=b), **{"class": "order-differs"})
+                break
     # sort a whole batch with the implementation and check it is sorted under the pairwise order
     batch = [r.choice(strs) for _ in range(200)]
     sb = sorted(batch, key=bv.parse_version)
